@@ -19,7 +19,6 @@ from vlib import *
 
 IDLE = "0,-1,1,1,1,0,0,0,0,0,0"
 FIELDS = ["sp", "sb", "prgNil", "stashGlobal", "privEnvNil", "callStack", "tryStack", "iterStack", "refStack", "jobQueue", "interrupted"]
-FLAGS = ["stale-prg", "try-leave", "unwind-abort", "rec-overflow"]     # order = Cfg fields
 CATCHABLE = ["t", "o", "g", "x"]
 
 
@@ -76,9 +75,7 @@ class Gen:
             hc, hf = r.choice([(1, 0), (0, 1), (1, 1)])
             b, jb = self.beh(d - 1)
             h, jh = self.beh(d - 2) if hc else (["K"], "")
-            # try/catch/finally with a throwing `finally`: goja re-enters the statement's own catch (enterFinally does not
-            # clear catchPos) — a C08 defect outside this model; with both clauses the finally body is kept empty here.
-            f, jf = (self.beh(d - 2) if not hc else (["K"], ";")) if hf else (["K"], "")
+            f, jf = self.beh(d - 2) if hf else (["K"], "")
             js = "try { %s }" % jb
             if hc:
                 js += " catch(e%d) { %s }" % (d, jh)
@@ -176,24 +173,27 @@ class Gen:
         return ["TR", str(k), mk] + t, {"api": "TR", "ops": ops, "k": k, "kind": kind}
 
 
-def gen_history(rng, depth, ncalls=None, maxdepth=None):
+def gen_history(rng, depth, ncalls=None, maxdepth=None, fault=None):
     g = Gen(rng)
     n = ncalls or rng.randint(1, 6)
     mx = maxdepth if maxdepth is not None else (rng.choice([-1, -1, -1] + list(range(0, 65))) if rng.random() < 0.5 else -1)
     mtoks, calls = [], []
     for _ in range(n):
-        if rng.random() < 0.25:
-            fault = (0, "t")
+        if fault is not None:
+            fl = fault
+            rng.random(); rng.randint(1, 8); rng.choice(CATCHABLE)      # keep the stream aligned
+        elif rng.random() < 0.25:
+            fl = (0, "t")
         else:
-            fault = (rng.randint(1, 8), rng.choice(CATCHABLE + ["i", "i", "i"]))
-        t, c = g.call(depth, fault)
+            fl = (rng.randint(1, 8), rng.choice(CATCHABLE + ["i", "i", "i"]))
+        t, c = g.call(depth, fl)
         mtoks.append(t)
         calls.append(c)
     return {"max": mx, "prelude": "var WO = {wv:0};\n" + "\n".join(g.prelude), "calls": calls, "natives": g.natives, "_model": mtoks}
 
 
-def model_line(h, cfgbits):
-    toks = [cfgbits, str(h["max"]), str(len(h["_model"]))]
+def model_line(h):
+    toks = [str(h["max"]), str(len(h["_model"]))]
     for t in h["_model"]:
         toks += t
     return " ".join(toks)
@@ -264,23 +264,49 @@ def gen_wild(rng):
     return {"max": mx, "prelude": "\n".join(prelude), "calls": calls, "natives": {}}
 
 
-# ------------------------------------------------------------------------------------------- sentinels (which repairs does the tree contain?)
-def sentinels():
-    """One history per proposed repair; the model's answer differs between flag=0 and flag=1."""
+# ------------------------------------------------------------------------------------------- regression seeds
+def regression_seeds():
+    """The original failing inputs of the six repaired defects (also stored in corpus/C03/seeds.json); modelled ones
+    carry `_model`.  They run first on every run."""
     def H(mx, mtoks, calls, prelude="", natives=None):
         return {"max": mx, "prelude": "var WO={wv:0};\n" + prelude, "calls": calls, "natives": natives or {}, "_model": mtoks}
     s = []
-    # stale-prg: interrupt inside a nested call of an outermost RunProgram
+    # F1 stale-prg (e71ffae): interrupt inside a nested call of an outermost RunProgram, then a call from Go
     s.append(H(-1, [["RP", "1", "i", "Fc", "0", "P", "1"]], [{"api": "RP", "src": "(function(){ P(1); })();", "k": 1, "kind": "i"}]))
-    # try-leave: interrupt inside a getter called under Runtime.Try at depth 0
-    s.append(H(-1, [["TG", "1", "i", "P", "1"]], [{"api": "TG", "obj": "O1", "k": 1, "kind": "i"}], "var O1 = { get x(){ P(1); } };"))
-    # unwind-abort: the iterator's return() is interrupted while a throw unwinds the for-of
+    # F2 try-leave (9e5aa04): interrupt inside a getter called under Runtime.Try at depth 0, then a run
+    s.append(H(-1, [["TG", "1", "i", "P", "1"], ["RP", "0", "t", "P", "1"]],
+               [{"api": "TG", "obj": "O1", "k": 1, "kind": "i"}, {"api": "RP", "src": "P(1);", "k": 0, "kind": "t"}], "var O1 = { get x(){ P(1); } };"))
+    # F3 unwind-abort (570c7df): the iterator's return() is interrupted while a throw unwinds the for-of
     s.append(H(-1, [["RP", "1", "i", "S", "Fn", "1", "K", "FO", "G", "0", "P", "1", "T"]],
                [{"api": "RP", "src": "var it1 = MKIT(function(){ P(1); return {}; }); for (var w of it1) { throw new Error('t'); }", "k": 1, "kind": "i"}]))
-    # rec-overflow: re-entrant RunProgram exactly at the call-depth limit
+    # F4 rec-overflow (195a32b): re-entrant RunProgram exactly at the call-depth limit
     s.append(H(2, [["RP", "0", "t", "S", "Fc", "0", "S", "Fn", "0", "Ap", "P", "1", "P", "2", "P", "3"]],
                [{"api": "RP", "src": "(function(){ G1(); P(2); })(); P(3);", "k": 0, "kind": "t"}], "", {"G1": [{"op": "RP", "src": "P(1);"}]}))
+    # F5 tf-alias (eae3f2a): throw out of a for-of over an iterator with a JS return() inside try/finally, at
+    # every try-stack depth 1..9 (the lost write needs len == cap of vm.tryStack when restoreStacks appends)
+    for depth in range(0, 9):
+        m = ["Y", "0", "1", "S", "Fn", "1", "K", "FO", "G", "0", "K", "T", "K", "P", "1"]
+        js = "try { var itA = MKIT(function(){ ; return {}; }); for (var w of itA) { throw new Error('t'); } } finally { P(1); }"
+        for d in range(depth):
+            m = ["Y", "0", "1"] + m + ["K", "K"]
+            js = "try { %s } finally { ; }" % js
+        s.append(H(-1, [["CA", "0", "0", "t"] + m], [{"api": "CA", "fn": "FA", "n": 0, "k": 0, "kind": "t"}], "function FA(){ %s }" % js))
+    # 379f30d: a throw inside `finally` must not be caught by the statement's own catch
+    s.append(H(-1, [["RP", "0", "t", "Y", "1", "0", "Y", "1", "1", "P", "1", "P", "2", "S", "P", "3", "T", "P", "4", "K"]],
+               [{"api": "RP", "src": "try { try { P(1); } catch(e1) { P(2); } finally { P(3); throw new Error('t'); } } catch(e2) { P(4); }", "k": 0, "kind": "t"}]))
+    # 5d979ec: an interrupt must not run return() of open iterators
+    s.append(H(-1, [["RP", "1", "i", "S", "Fn", "1", "K", "FO", "G", "0", "P", "1", "P", "2"]],
+               [{"api": "RP", "src": "var it2 = MKIT(function(){ P(1); return {}; }); for (var w of it2) { P(2); }", "k": 1, "kind": "i"}]))
     return s
+
+
+WILD_SEEDS = [
+    # F3 variant / F6 generator marker leak (e8f901b) originals
+    {"max": 16, "prelude": "", "calls": [{"api": "RP", "src": "var it={ [Symbol.iterator](){ return { next(){ P(1); return {value:1,done:false} }, return(){ P(2); return {} } } } }; var [a,b]=it; P(3);", "k": 1, "kind": "i"}], "natives": {}},
+    {"max": 44, "prelude": "function W0(){ function* g(){ try { yield 1; yield 2 } finally { P(1) } } for (var v of g()) { P(2); throw new Error('q') } }", "calls": [{"api": "CO", "fn": "W0", "n": 2, "k": 2, "kind": "i"}], "natives": {}},
+    {"max": 1, "prelude": "function W1(){ try { var g=(function*(){ var x = yield* (function*(){ P(1); yield 1; P(2); return 5 })(); P(3) })(); g.next(); g.next(); g.next(); } catch(ew) { P(90) } finally { P(91) } }", "calls": [{"api": "TR", "ops": [{"op": "FOROF", "fn": "W1"}], "k": 0, "kind": "i"}], "natives": {}},
+    {"max": -1, "prelude": "var OW4 = { get x(){ P(1); P(2); } };", "calls": [{"api": "TG", "obj": "OW4", "k": 2, "kind": "i"}, {"api": "RP", "src": "P(1);", "k": 0, "kind": "t"}], "natives": {}},
+]
 
 
 # ------------------------------------------------------------------------------------------- judging
@@ -303,7 +329,7 @@ def judge_impl(h, line):
             bad.append((i, "host-panic:" + c[0][:120]))
         if c[2] != IDLE:
             f = [FIELDS[j] for j, (a, b) in enumerate(zip(c[2].split(","), IDLE.split(","))) if a != b]
-            if h["calls"][i]["api"] in ("TR", "TG") and c[0] in ("ok", "ex") and "jobQueue" in f:
+            if i < len(h["calls"]) and h["calls"][i]["api"] in ("TR", "TG") and c[0] in ("ok", "ex") and "jobQueue" in f:
                 f.remove("jobQueue")     # Runtime.Try is not a "run": jobs wait for the next leave() (C10's concern)
             if f:
                 bad.append((i, "not-idle:" + "+".join(f)))
@@ -316,15 +342,28 @@ class Runner:
     def __init__(self, ctx, harness, model):
         self.ctx, self.harness, self.model = ctx, harness, model
 
-    def impl(self, hs, timeout=900):
-        rc, out, err = self.ctx.run_lines([self.harness], [harness_line(h) for h in hs], timeout=timeout)
-        return out, (rc, err)
+    def impl(self, hs, timeout=1800):
+        """run histories through the harness; a timeout / crash of the process is retried once in halves so that one
+        slow machine moment is never reported as a violation"""
+        for attempt in range(2):
+            rc, out, err = self.ctx.run_lines([self.harness], [harness_line(h) for h in hs], timeout=timeout)
+            if rc == 0 and len(out) == len(hs):
+                return out, (rc, err)
+        if len(hs) > 1:
+            mid = len(hs) // 2
+            a, _ = self.impl(hs[:mid], timeout)
+            b, _ = self.impl(hs[mid:], timeout)
+            return a + b, (0, "")
+        return out + ["PANIC harness gave no answer (rc=%s): %s" % (rc, err[-200:].replace("\n", " "))] * (len(hs) - len(out)), (rc, err)
 
-    def mod(self, hs, cfgbits, timeout=900):
+    def mod(self, hs, timeout=1800):
         if not self.model or not os.path.exists(self.model):
             return None
-        rc, out, err = self.ctx.run_lines([self.model], [model_line(h, cfgbits) for h in hs], timeout=timeout)
-        return out if rc == 0 and len(out) == len(hs) else None
+        for attempt in range(2):
+            rc, out, err = self.ctx.run_lines([self.model], [model_line(h) for h in hs], timeout=timeout)
+            if rc == 0 and len(out) == len(hs):
+                return out
+        return None
 
 
 def shards(items, n):
@@ -344,27 +383,10 @@ def strip_probe(line):
     return line.partition(" ## ")[0]
 
 
-def explain(run, h, detected, impl_main):
-    """Which proposed repair(s) explain a deviation: flags whose fix alone makes the model Idle/equal to the
-    all-fixed model on this history while the as-detected model still equals the implementation."""
-    m_det = run.mod([h], detected)
-    if not m_det or m_det[0] != impl_main:
-        return None
-    out = []
-    for i, name in enumerate(FLAGS):
-        if detected[i] == "1":
-            continue
-        bits = detected[:i] + "1" + detected[i + 1:]
-        m = run.mod([h], bits)
-        if m and m[0] != m_det[0]:
-            out.append(name)
-    return out or None
-
-
 def main(ctx):
     tier = ctx.tier
     ok, errs = ctx.lake_build(["GojaModel.C03.Props", "model_c03"])
-    ctx.audit("GojaModel.C03.Props", expect_min=10)
+    ctx.audit("GojaModel.C03.Props", expect_min=12)
     if tier == "thorough":
         ctx.leanchecker("GojaModel.C03.Props")
     harness = ctx.go_build()
@@ -372,70 +394,48 @@ def main(ctx):
     if not os.path.exists(model):
         ctx.obligation("tie.model-driver", "tie", False, "model_c03 not built")
         model = None
-    recover_sites(ctx)
+    source_facts(ctx)
     if harness is None:
         return ctx.finish(level="proof", rule="harness did not build")
     run = Runner(ctx, harness, model)
 
-    # ---- which repairs does this tree contain (per-flag sentinel, model must match for one value)
-    detected = ""
-    sent = sentinels()
-    s_out, _ = run.impl(sent)
-    for i, h in enumerate(sent[:3]):
-        got = strip_probe(s_out[i]) if i < len(s_out) else "?"
-        pick = None
-        for v in "01":
-            bits = detected + v + "1" * (len(FLAGS) - i - 1)   # earlier flags as detected, later ones do not matter for sentinel i
-            m = run.mod([h], bits)
-            if m and m[0] == got:
-                pick = v
-                break
-        if pick is None:
-            ctx.obligation("corr:sentinel:" + FLAGS[i], "correspondence", False, "impl=%s" % got[:300])
-            pick = "0"
-        detected += pick
-    # rec-overflow is not observable through natives that re-panic the error (both model variants agree on
-    # every generated history); it is pinned by the Lean witness and design/C03.md instead
-    detected += "0"
-    ctx.stats["repairs_detected"] = dict(zip(FLAGS, detected))
-    ctx.log("repairs present in the tree:", ctx.stats["repairs_detected"])
-
-    # ---- stream A: modelled histories
-    nA = 450 if tier == "quick" else 3000
-    nB = 300 if tier == "quick" else 2000
-    hsA = []
+    # ---- stream A: modelled histories (regression seeds and corpus first)
+    nA = 350 if tier == "quick" else 4000
+    nB = 250 if tier == "quick" else 2500
     corpus = load_corpus(ctx)
+    seeds = []                      # corpus/C03/seeds.json holds regression_seeds() + WILD_SEEDS; they run first
     rng = ctx.rng
+    hsA = []
     for i in range(nA):
         hsA.append(gen_history(rng, depth=rng.choice([2, 3, 3, 4])))
     if tier == "thorough":
-        # systematic: every k and every depth limit 0..64 on a fixed set of shapes
+        # systematic: every depth limit 0..64 on a fixed set of shapes
         base = random.Random(ctx.seed * 7919 + 1)
         for shape in range(12):
             st = base.getstate()
             for mx in list(range(0, 65)) + [-1]:
                 base.setstate(st)
                 hsA.append(gen_history(base, depth=3, ncalls=2, maxdepth=mx))
-    hsA = sent + corpus["A"] + hsA
+    if tier == "thorough":
+        # systematic: a fault at EVERY probe position k = 1..12, catchable and interrupt, on fixed shapes
+        base = random.Random(ctx.seed * 6007 + 3)
+        for shape in range(25):
+            st = base.getstate()
+            for k in range(1, 13):
+                for kind in ("t", "i"):
+                    base.setstate(st)
+                    hsA.append(gen_history(base, depth=3, ncalls=1, maxdepth=-1, fault=(k, kind)))
+    if not corpus["A"]:
+        ctx.obligation("corpus:regression-seeds", "correspondence", False, "corpus/C03/seeds.json missing")
+    hsA = corpus["A"] + hsA
 
-    def implA(part):
-        return run.impl(part)[0]
-    outs = [x for part in run_parallel(implA, hsA) for x in part]
-    mouts = run.mod(hsA, detected) if model else None
-    fixed_outs = run.mod(hsA, "1111") if model else None
-    alt_outs = {}
-    if model:
-        for fi, name in enumerate(FLAGS):
-            if detected[fi] == "0":
-                alt_outs[name] = run.mod(hsA, detected[:fi] + "1" + detected[fi + 1:])
+    outs = [x for part in run_parallel(lambda p: run.impl(p)[0], hsA) for x in part]
+    mouts = run.mod(hsA) if model else None
     ctx.count(len(hsA))
     agree = True
     ndiff = 0
-    stats = {"outcomes": {}, "apis": {}, "faultkinds": {}, "max_depth_limits": set(), "probes": 0, "calls": 0, "deviating_histories": 0}
+    stats = {"outcomes": {}, "apis": {}, "faultkinds": {}, "max_depth_limits": set(), "probes": 0, "calls": 0}
     viol = []
-    if len(outs) != len(hsA):
-        ctx.obligation("corr:harness-ran", "correspondence", False, "harness answered %d of %d lines" % (len(outs), len(hsA)))
-        outs += ["PANIC missing"] * (len(hsA) - len(outs))
     for i, h in enumerate(hsA):
         line = outs[i]
         main_part = strip_probe(line)
@@ -455,84 +455,54 @@ def main(ctx):
             agree = False
             ndiff += 1
             if ndiff <= 3:
-                small = shrink(run, h, lambda hh: (run.mod([hh], detected) or ["?"])[0] != strip_probe(run.impl([hh])[0][0]))
-                p = ctx.write_replay("corr-mismatch-%d" % ndiff, replay_obj(small, detected, run))
+                small = shrink(run, h, lambda hh: (run.mod([hh]) or ["?"])[0] != strip_probe(run.impl([hh])[0][0]))
+                p = ctx.write_replay("corr-mismatch-%d" % ndiff, replay_obj(small, run))
                 ctx.log("model/implementation disagree, replay", p)
-                viol.append((small, [(0, "model-mismatch")], True, None))
         bad = judge_impl(h, line)
-        if fixed_outs is not None and mouts is not None and mouts[i] == main_part and fixed_outs[i] != main_part and not bad:
-            bad = [(-1, "deviates-from-repaired-model")]      # e.g. control flow corrupted inside the call, idle state fine
         if bad:
-            stats["deviating_histories"] += 1
-            why = None
-            if mouts is not None and mouts[i] == main_part:
-                why = [n for n, o in alt_outs.items() if o is not None and o[i] != mouts[i]]
-            viol.append((h, bad, False, why))
+            viol.append((h, bad))
     ctx.obligation("corr:model-vs-goja:histories", "correspondence", agree and mouts is not None,
                    "%d of %d histories differ" % (ndiff, len(hsA)) if mouts is not None else "model driver unavailable")
-    if len(ctx.samples) < 4:
-        for h, o in list(zip(hsA, outs))[len(sent):len(sent) + 3]:
-            ctx.sample({"model_line": model_line(h, detected)[:400], "impl": o[:400]})
+    # the model must itself satisfy the spec oracle on every generated history (it is proved: idle_after_any_api_call)
+    if mouts is not None:
+        mbad = sum(1 for h, m in zip(hsA, mouts) if judge_impl(h, m))
+        ctx.obligation("corr:model-satisfies-idle-oracle", "correspondence", mbad == 0, "%d model answers not idle" % mbad)
+    for h, o in list(zip(hsA, outs))[len(corpus["A"]):len(corpus["A"]) + 3]:
+        ctx.sample({"model_line": model_line(h)[:400], "impl": o[:400]})
 
     # ---- stream B: wild histories (spec oracle only)
     rngB = random.Random(ctx.seed * 104729 + 7)
     hsB = corpus["B"] + [gen_wild(rngB) for _ in range(nB)]
     outsB = [x for part in run_parallel(lambda p: run.impl(p)[0], hsB) for x in part]
     ctx.count(len(hsB))
-    if len(outsB) != len(hsB):
-        ctx.obligation("corr:harness-ran:wild", "correspondence", False, "harness answered %d of %d" % (len(outsB), len(hsB)))
-        outsB += ["PANIC missing"] * (len(hsB) - len(outsB))
     wild_abrupt = 0
-    line_of = {}
     for h, line in zip(hsB, outsB):
-        line_of[id(h)] = line
         calls, _ = split_calls(line)
         if any(c[0] != "ok" for c in calls if c):
             wild_abrupt += 1
             ctx.nontriv("B" + strip_probe(line))
         bad = judge_impl(h, line)
         if bad:
-            viol.append((h, bad, False, None))
+            viol.append((h, bad))
     stats["wild_histories"] = len(hsB)
     stats["wild_with_abrupt_ending"] = wild_abrupt
     stats["max_depth_limits"] = sorted(stats["max_depth_limits"])
+    stats["deviating_histories"] = len(viol)
     ctx.stats.update(stats)
 
     # ---- violations: shrink, classify, report
-    reported = 0
     seen = set()
-    for h, bad, is_corr, why in viol:
-        if is_corr:
-            continue
-        if why:
-            key = "why:" + ",".join(why)
-        elif "_model" not in h and wild_signature(run, h, line_of.get(id(h))):
-            key = "wild:" + wild_signature(run, h, line_of.get(id(h)))[0]
-        else:
-            key = ",".join(sorted(set(w.split(":")[0] + ":" + w.split(":")[1][:40] if ":" in w else w for _, w in bad)))
-        if key in seen or reported >= 10:
+    for h, bad in viol:
+        key = ",".join(sorted(set(w.split(":")[0] + ":" + w.split(":")[1][:40] if ":" in w else w for _, w in bad)))
+        if key in seen or len(seen) >= 8:
             continue
         seen.add(key)
-        reported += 1
-        if key.startswith("wild:"):
-            sig = wild_signature(run, h, line_of.get(id(h)))
-            ctx.violation(sig[0], sig[1], replay_obj(h, detected, run))
-            continue
-        if why and len(why) >= 1:
-            # attribute to the known defect(s): the signature is the set of repairs that explain it
-            for name in why:
-                ctx.violation("defect:" + name, "state/behaviour leaks after an abrupt ending; explained by missing repair fixes/C03-%s.diff" % name,
-                              replay_obj(h, detected, run))
-            continue
         small = shrink(run, h, lambda hh: bool(judge_impl(hh, run.impl([hh])[0][0])))
-        if "_model" not in h:
-            sig = wild_signature(run, small)
-            if sig:
-                ctx.violation(sig[0], sig[1], replay_obj(small, detected, run))
-                continue
         b2 = judge_impl(small, run.impl([small])[0][0])
-        sig = "unexplained:" + ",".join(sorted(set(w[:60] for _, w in b2)))
-        ctx.violation(sig, "history violates the idle-state / fresh-runtime oracle: %s" % b2[:3], replay_obj(small, detected, run))
+        if not b2:
+            continue          # not reproducible on its own (e.g. a harness process was killed): inconclusive, not a violation
+        sig = classify(small, b2, run.impl([small])[0][0]) or "leak:" + ",".join(sorted(set(w[:60] for _, w in b2)))
+        ctx.violation(sig, "history violates the idle-state / fresh-runtime oracle: %s" % b2[:3], replay_obj(small, run))
 
     ctx.assumptions += [
         "All catchable Go-side payloads (Value, *Object, GoError, *Exception) are one `thrown` outcome in the model (exceptionFromValue maps them all to a non-nil *Exception).",
@@ -546,50 +516,23 @@ def main(ctx):
                            "(outcome, probe trace, idle vector) transcript containing at least one abrupt ending")
 
 
-def wild_signature(run, h, line=None):
-    """Attribute a stream-B deviation to known defects by the state-vector fingerprint.  Every deviating call must
-    be explained (a later `behaviour-differs` is a consequence of an explained leak); otherwise None."""
-    if line is None:
-        line = run.impl([h])[0][0]
-    bad = judge_impl(h, line)
+def classify(h, bad, line):
+    """Signature of the one defect that is still unrepaired in /repo (known_findings.d/C03.json): the shrunk
+    history must be a single call, under a depth limit, ending with an uncatchable, whose only deviation is one
+    leftover try frame, and its source must create a generator / async activation."""
     calls, _ = split_calls(line)
-    first = None
-    extra = []
-    for i, w in bad:
-        if w == "behaviour-differs":
-            continue
-        sig = None
-        if 0 <= i < len(calls) and w.startswith("not-idle:") and calls[i][0] == "fatal":
-            c = h["calls"][i]
-            api = c["api"]
-            src = h["prelude"] + c.get("src", "")
-            gen = ("function*" in src or "async " in src)
-            fields = set(w[len("not-idle:"):].split("+"))
-            sigs = []
-            if "prgNil" in fields and api == "RP":
-                fields.discard("prgNil")
-                sigs.append(("defect:stale-prg", "vm.prg stale after an uncatchable ending of the outermost RunProgram"))
-            if fields & {"interrupted", "jobQueue"} and api in ("TR", "TG"):
-                fields -= {"interrupted", "jobQueue"}
-                sigs.append(("defect:try-leave", "Runtime.Try at depth 0 does not run leaveAbrupt when an uncatchable passes"))
-            if gen and fields & {"tryStack", "sp", "iterStack", "refStack"} and "tryStack" in fields:
-                fields -= {"tryStack", "sp", "iterStack", "refStack"}
-                sigs.append(("defect:generator-marker-leak", "uncatchable inside a generator/async resume leaves the generator's try marker on vm.tryStack (the enclosing boundary then restores from the wrong frame)"))
-            if fields & {"iterStack", "refStack"}:
-                fields -= {"iterStack", "refStack"}
-                sigs.append(("defect:unwind-abort", "iterator/reference record left behind: iterator close aborted by an uncatchable during unwinding"))
-            if not fields and sigs:
-                sig = sigs[0]
-                for s2 in sigs[1:]:
-                    extra.append(s2)
-        if sig is None:
-            return None
-        first = first or sig
-    return first
+    if len(h["calls"]) != 1 or h["max"] < 0 or [w for _, w in bad] != ["not-idle:tryStack"]:
+        return None
+    if calls[0][0] != "fatal" or calls[0][2].split(",")[6] != "1":
+        return None
+    src = h["prelude"] + h["calls"][0].get("src", "")
+    if "function*" in src or "async " in src:
+        return "defect:generator-create-overflow"
+    return None
 
 
 def shrink(run, h, fails):
-    """delta-debug the calls of a history, then drop the depth limit / faults where possible"""
+    """delta-debug the calls of a history"""
     try:
         idx = Ctx.ddmin(list(range(len(h["calls"]))), lambda keep: fails(sub_history(h, keep)))
         return sub_history(h, idx)
@@ -605,15 +548,12 @@ def sub_history(h, keep):
     return hh
 
 
-def replay_obj(h, detected, run):
-    o = {"kind": "history", "harness_line": harness_line(h), "repairs_detected": detected}
+def replay_obj(h, run):
+    o = {"kind": "history", "harness_line": harness_line(h)}
     if "_model" in h:
-        o["model_line"] = model_line(h, detected)
-        o["model_line_all_repairs"] = model_line(h, "1111")
-        m = run.mod([h], detected)
+        o["model_line"] = model_line(h)
+        m = run.mod([h])
         o["expected_model"] = m[0] if m else None
-        m = run.mod([h], "1111")
-        o["expected_spec_model"] = m[0] if m else None
     o["expected_idle_vector"] = IDLE + "  (" + ",".join(FIELDS) + ")"
     o["observed"] = run.impl([h])[0][0]
     return o
@@ -631,46 +571,86 @@ def load_corpus(ctx):
     return out
 
 
-def recover_sites(ctx):
-    """Regenerated fact (textual, from the working tree): the recover() sites of the root package and what each
-    re-panics.  The model assumes exactly these boundaries; a new or changed site breaks the tie."""
+def func_body(src, header):
+    import re
+    i = src.find(header)
+    if i < 0:
+        return ""
+    j = src.find("\n}\n", i)
+    return src[i:j + 3] if j > 0 else ""
+
+
+def source_facts(ctx):
+    """Regenerated facts (textual, from the working tree): the recover() sites of the root package, and the
+    statements of the functions the model transcribes, in the exact form the model assumes (fixed code).
+    A new / removed recover site or a changed statement breaks the tie."""
     import re
     expected = {
-        ("vm.go", "try"): "handleThrow",
-        ("vm.go", "runTryInner"): "handleThrow",
-        ("runtime.go", "RunProgram"): "asUncatchableException|panic(x)",
-        ("runtime.go", "runWrapped"): "asUncatchableException|panic(x)",
-        ("runtime.go", "compileAST"): "CompilerSyntaxError|panic(x)",
-        ("runtime.go", "tryFunc"): "ret = recover()",
-        ("builtin_typedarrays.go", "*"): "any",
+        ("vm.go", "try"), ("vm.go", "runTryInner"), ("runtime.go", "RunProgram"), ("runtime.go", "runWrapped"),
+        ("runtime.go", "Try"), ("runtime.go", "compileAST"), ("runtime.go", "tryFunc"), ("builtin_typedarrays.go", "*"),
     }
     found = {}
+    srcs = {}
     for fn in sorted(os.listdir(REPO)):
         if not fn.endswith(".go") or fn.endswith("_test.go") or fn.startswith("verif_hooks"):
             continue
         src = open(os.path.join(REPO, fn), errors="replace").read()
+        srcs[fn] = src
         cur = None
         for line in src.splitlines():
             m = re.match(r"func (?:\([^)]*\) )?(\w+)", line)
             if m:
                 cur = m.group(1)
             if "recover()" in line:
-                found.setdefault((fn, cur), 0)
-                found[(fn, cur)] += 1
+                found[(fn, cur)] = found.get((fn, cur), 0) + 1
     keys = set((f, c if f != "builtin_typedarrays.go" else "*") for f, c in found)
-    missing = set(expected) - keys
-    extra = keys - set(expected)
-    ok = not missing and not extra
-    # handleThrow's shape: the facts the model transcribes
-    vm = open(os.path.join(REPO, "vm.go"), errors="replace").read()
-    m = re.search(r"func \(vm \*vm\) handleThrow\(.*?\n}\n", vm, re.S)
-    body = m.group(0) if m else ""
-    need = ["vm.sp = int(tf.sp)", "vm.stash = tf.stash", "vm.privEnv = tf.privEnv", "vm.restoreStacks(tf.iterLen, tf.refLen)",
-            "vm.callStack = vm.callStack[:tf.callStackLen]", "ex == nil && tf.catchPos != tryPanicMarker", "if ex == nil {\n\t\tpanic(arg)"]
-    lacking = [n for n in need if n not in body]
     ctx.stats["recover_sites"] = sorted("%s:%s" % k for k in found)
-    ctx.obligation("tie:recover-sites", "tie", ok, "missing=%s extra=%s" % (sorted(missing), sorted(extra)))
-    ctx.obligation("tie:handleThrow-shape", "tie", not lacking, "statements not found in handleThrow: %s" % lacking)
+    ctx.obligation("tie:recover-sites", "tie", keys == expected,
+                   "missing=%s extra=%s" % (sorted(expected - keys), sorted(keys - expected)))
+    need = {
+        ("vm.go", "func (vm *vm) handleThrow("): [
+            "if tf.catchPos == -1 && tf.finallyPos == -1 || ex == nil && tf.catchPos != tryPanicMarker {",
+            "if int(tf.callStackLen) < len(vm.callStack) {", "vm.callStack = vm.callStack[:tf.callStackLen]",
+            "ctx.prg, ctx.newTarget, ctx.result, ctx.pc, ctx.sb, ctx.args",
+            "vm.sp = int(tf.sp)", "vm.stash = tf.stash", "vm.privEnv = tf.privEnv",
+            "vm._restoreStacks(tf.iterLen, tf.refLen, ex != nil)", "tf = &vm.tryStack[len(vm.tryStack)-1]",
+            "if tf.catchPos == tryPanicMarker {\n\t\t\tbreak", "tf.catchPos = -1\n\t\t\treturn nil",
+            "tf.finallyPos = -1\n\t\t\ttf.finallyRet = -1\n\t\t\treturn nil", "if ex == nil {\n\t\tpanic(arg)"],
+        ("vm.go", "func (vm *vm) _restoreStacks("): [
+            "defer func() {", "vm.iterStack = vm.iterStack[:iterLen]", "vm.refStack = vm.refStack[:refLen]",
+            "iter != nil && closeIters {", "ex1 := vm.try(func() {"],
+        ("vm.go", "func (vm *vm) pushCtx("): ["if len(vm.callStack) > vm.maxCallStackSize {", "vm.saveCtx(ctx)"],
+        ("vm.go", "func (vm *vm) pushTryFrame("): ["callStackLen: uint32(len(vm.callStack)),", "iterLen:      uint32(len(vm.iterStack)),",
+                                                  "refLen:       uint32(len(vm.refStack)),", "sp:           int32(vm.sp),",
+                                                  "stash:        vm.stash,", "privEnv:      vm.privEnv,"],
+        ("vm.go", "func (enterFinally) exec("): ["tf.finallyPos = -1", "tf.catchPos = -1"],
+        ("vm.go", "func (vm *vm) try("): ["vm.pushTryFrame(tryPanicMarker, -1)", "defer vm.popTryFrame()", "ex = vm.handleThrow(x)"],
+        ("func.go", "func (f *baseJsFuncObject) __call("): [
+            "vm.pushTryFrame(tryPanicMarker, -1)\n\tdefer vm.popTryFrame()", "if vm.prg != nil {\n\t\tvm.pushCtx()",
+            "vm.callStack = append(vm.callStack, context{pc: -2})", "vm.pc = -2\n\t\tvm.pushCtx()", "ex := vm.runTryInner()",
+            "if needPop {\n\t\tvm.popCtx()"],
+        ("runtime.go", "func (r *Runtime) RunProgram("): [
+            "recursive := len(vm.callStack) > 0", "if pushed {\n\t\t\t\tvm.sp -= 2\n\t\t\t\tvm.popCtx()",
+            "vm.callStack = vm.callStack[:len(vm.callStack)-1]", "if len(vm.callStack) == 0 {\n\t\t\t\t\tr.leaveAbrupt()",
+            "vm.pushCtx() // may panic with a StackOverflowError\n\t\tpushed = true", "vm.callStack = append(vm.callStack, context{})",
+            "ex := vm.runTry()", "vm.prg = nil\n\t\tvm.sb = -1\n\t\tr.leave()"],
+        ("runtime.go", "func (r *Runtime) runWrapped("): [
+            "if len(r.vm.callStack) == 0 {\n\t\t\t\t\tr.leaveAbrupt()", "ex := r.vm.try(f)", "if len(r.vm.callStack) == 0 {\n\t\tr.leave()"],
+        ("runtime.go", "func (r *Runtime) Try("): ["if len(r.vm.callStack) == 0 && asUncatchableException(x) != nil {\n\t\t\t\tr.leaveAbrupt()", "return r.vm.try(f)"],
+        ("runtime.go", "func (r *Runtime) leaveAbrupt("): ["r.jobQueue = nil", "r.ClearInterrupt()", "r.vm.prg = nil", "r.vm.sb = -1"],
+        ("runtime.go", "func (r *Runtime) leave("): ["for len(r.jobQueue) > 0 {", "jobs, r.jobQueue = r.jobQueue, jobs[:0]", "r.jobQueue = nil"],
+    }
+    lacking = []
+    for (fn, header), stmts in need.items():
+        body = func_body(srcs.get(fn, ""), header)
+        if not body:
+            lacking.append("%s: %s not found" % (fn, header))
+            continue
+        for st in stmts:
+            if st not in body:
+                lacking.append("%s %s lacks `%s`" % (fn, header, st.replace("\n", " ").replace("\t", "")))
+    ctx.stats["transcribed_functions_checked"] = len(need)
+    ctx.obligation("tie:transcribed-statements", "tie", not lacking, "; ".join(lacking)[:1500])
 
 
 def replay(ctx, path):
@@ -679,6 +659,7 @@ def replay(ctx, path):
     harness = ctx.go_build()
     model = ctx.model_exe()
     print("history:", o.get("harness_line", "")[:2000])
+    bad = [(-1, "no harness")]
     if harness:
         rc, out, err = ctx.run_lines([harness], [o["harness_line"]])
         print("implementation:", out[0] if out else err)
@@ -686,7 +667,6 @@ def replay(ctx, path):
         bad = judge_impl(h, out[0]) if out else [(-1, "no output")]
         print("oracle (idle vector %s after every call; behavioural probe SAME):" % IDLE, bad or "holds")
     if "model_line" in o and os.path.exists(model):
-        rc, out2, err = ctx.run_lines([model], [o["model_line"], o["model_line_all_repairs"]])
-        print("model (code as detected):", out2[0] if out2 else err)
-        print("model (all repairs)     :", out2[1] if len(out2) > 1 else err)
-    return 1 if (not harness or bad) else 0
+        rc, out2, err = ctx.run_lines([model], [o["model_line"]])
+        print("model:", out2[0] if out2 else err)
+    return 1 if bad else 0
